@@ -222,12 +222,21 @@ def flatten_E(section):
 # selecting the items of /repo that the mirror ingests
 # ----------------------------------------------------------------------------------------------
 
-def select_repo_tokens(e_items, r_items, r_toks, where, dropped):
-    """Return the list of R tokens for the items whose keys occur in e_items (recursively)."""
+def select_repo_tokens(e_items, r_items, r_toks, where, dropped, removed, e_toks):
+    """Return the list of R tokens for the items whose keys occur in e_items (recursively).
+
+    A private (non-`pub`) fn item of the mirror that no longer exists in /repo is recorded in `removed`
+    (its contract is void; whoever called it was rewritten and is checked against its own contract).
+    Any other vanished item is a lost anchor."""
     ekeys = {it.key: it for it in e_items}
     rkeys = {it.key for it in r_items}
+    itm._mark_pub(e_items, e_toks)
     for k in ekeys:
         if k not in rkeys:
+            eit = ekeys[k]
+            if eit.kind == 'fn' and not eit.is_pub and not where.split(' :: ')[-1].startswith('trait'):
+                removed.append((where + ' :: ' + k, eit))
+                continue
             raise Undecided('lost anchor: item `%s` of the mirror no longer exists in %s' % (k, where))
     out = []
     for rit in r_items:
@@ -238,7 +247,7 @@ def select_repo_tokens(e_items, r_items, r_toks, where, dropped):
         if rit.body is not None and eit.body is not None:
             out.extend(r_toks[rit.start:rit.body[0] + 1])
             out.extend(select_repo_tokens(eit.children, rit.children, r_toks,
-                                          where + ' :: ' + rit.key, dropped))
+                                          where + ' :: ' + rit.key, dropped, removed, e_toks))
             out.extend(r_toks[rit.body[1]:rit.end])
         else:
             out.extend(r_toks[rit.start:rit.end])
@@ -276,6 +285,7 @@ class SectionResult:
         self.extra_ranges = []   # (first_line, last_line, owner item path) for pasted originals
         self.regions = []        # (first_line, last_line, label) of ins regions in the generated file
         self.hints_dropped = []  # proof-hint regions dropped because the code around them was rewritten
+        self.items_removed = []  # private fns of the mirror that no longer exist in /repo (their contracts are void)
 
 
 def tokens_text(toks):
@@ -298,8 +308,13 @@ def generate_section(section, repo_root, em, res):
         r_items = itm.parse_items(r_all, 0, len(r_all))
     except (rtok.TokError, itm.ItemError) as ex:
         raise Undecided('cannot parse %s: %s' % (section.path, ex))
-    R = select_repo_tokens(e_items, r_items, r_all, section.path, res.dropped)
+    removed = []
+    R = select_repo_tokens(e_items, r_items, r_all, section.path, res.dropped, removed, e_toks)
     res.r_tokens = len(R)
+    gone = set()
+    for path, it in removed:
+        res.items_removed.append(path)
+        gone.update(range(it.start, it.end))
 
     nE = len(e_toks)
     pre_a = [[] for _ in range(nE + 1)]   # emitted before the regions anchored at i (pure inserts)
@@ -313,18 +328,39 @@ def generate_section(section, repo_root, em, res):
         if it.kind == 'fn' or not it.children:
             for p_ in range(it.start, it.end):
                 owner_early[p_] = path
-    if ek != rk:
+    anchors = {}
+    dead = set()
+    _collect_anchors(section, anchors, dead)
+    dropped_nodes = set()      # overlay nodes inside removed items
+    for path, it in removed:
+        for p in range(it.start, it.end):
+            deleted[p] = True
+            for node in anchors.get(p, []):
+                if p > it.start or isinstance(node, Sub) or _is_attr_ins(node):
+                    dropped_nodes.add(id(node))
+        for node in anchors.get(it.end, []):
+            if isinstance(node, Sub):
+                rs = list(reals_of(node.orig))
+                if rs and rs[0].eidx >= it.start:
+                    dropped_nodes.add(id(node))
+    keep = [i for i in range(nE) if i not in gone]
+    ek2 = [ek[i] for i in keep]
+    if ek2 != rk or gone:
         res.equal = False
-        sm = difflib.SequenceMatcher(a=ek, b=rk, autojunk=False)
-        # region boundaries (anchors): E index before which an overlay node sits
-        anchors = {}
-        dead = set()
-        _collect_anchors(section, anchors, dead)
-        for tag, i1, i2, j1, j2 in sm.get_opcodes():
+    if ek2 != rk:
+        sm = difflib.SequenceMatcher(a=ek2, b=rk, autojunk=False)
+        for tag, k1, k2, j1, j2 in sm.get_opcodes():
             if tag == 'equal':
                 continue
+            idx = [keep[q] for q in range(k1, k2)]
+            i1 = keep[k1] if k1 < len(keep) else nE
+            i2 = (idx[-1] + 1) if idx else i1
             for p in range(i1 + 1, i2):
+                if p in gone:
+                    continue
                 for node in anchors.get(p, []):
+                    if id(node) in dropped_nodes:
+                        continue
                     if isinstance(node, Ins) and node.label.split()[:1] == ['proof']:
                         # a proof hint whose surrounding code was rewritten: the hint is dropped
                         dropped_hints.add(id(node))
@@ -333,19 +369,21 @@ def generate_section(section, repo_root, em, res):
                     raise Undecided('overlay conflict: edit of %s near line %d spans an annotation boundary (mirror %s line %d)'
                                     % (section.path, R[j1].line if j1 < len(R) else -1,
                                        section.mirror_file, e_toks[p].line))
-            for p in range(i1, i2):
+            for p in idx:
                 if p in dead:
                     raise Undecided('overlay conflict: edit of %s touches tokens rewritten by sub region (mirror %s line %d)'
                                     % (section.path, section.mirror_file, e_toks[p].line))
-            if i1 == i2:
-                pre_a[i1].extend(R[j1:j2])
+            run = [(t, q == 0) for q, t in enumerate(R[j1:j2])]
+            if not idx:
+                pre_a[i1].extend(run)
             else:
-                pre_b[i1].extend(R[j1:j2])
-                for p in range(i1, i2):
+                pre_b[i1].extend(run)
+                for p in idx:
                     deleted[p] = True
             res.edits.append({'item': owner_early.get(i1) or owner_early.get(i1 - 1) or owner_early.get(i2),
                               'repo_line': R[j1].line if j1 < len(R) else (R[-1].line if R else 0),
-                              'was': tokens_text(e_toks[i1:i2])[:200], 'now': tokens_text(R[j1:j2])[:200]})
+                              'was': tokens_text([e_toks[p] for p in idx])[:200], 'now': tokens_text(R[j1:j2])[:200]})
+    dropped_hints |= dropped_nodes
 
     # item line ranges
     starts = {}
@@ -370,15 +408,15 @@ def generate_section(section, repo_root, em, res):
     def emit_pre_a(i):
         if i not in emitted_pre_a:
             emitted_pre_a.add(i)
-            for t in pre_a[i]:
-                em.write(t.ws if '\n' in t.ws else ' ')
+            for t, first in pre_a[i]:
+                em.write(t.ws if (t.ws or not first) else ' ')
                 em.write(t.text)
 
     def emit_real(r, track=True):
         i = r.eidx
         emit_pre_a(i)
-        for t in pre_b[i]:
-            em.write(t.ws if t.ws else ' ')
+        for t, first in pre_b[i]:
+            em.write(t.ws if (t.ws or not first) else ' ')
             em.write(t.text)
         if track:
             for path, it in starts.get(i, []):
@@ -404,6 +442,8 @@ def generate_section(section, repo_root, em, res):
                 name = body.split()[1] if len(body.split()) > 1 else ''
                 if name not in subs:
                     raise Undecided('paste of unknown sub %r in %s line %d' % (name, section.mirror_file, t.line))
+                if id(subs[name]) in dropped_hints:
+                    raise Undecided('paste of sub %r whose function was removed from %s' % (name, section.path))
                 em.write(t.ws)
                 first = em.line
                 owner = owner_of.get(first_real(subs[name].orig, -1))
@@ -429,6 +469,8 @@ def generate_section(section, repo_root, em, res):
                 em.write(n.close_ws)
                 res.regions.append((first, em.line, n.label))
             else:
+                if id(n) in dropped_hints:
+                    continue
                 a = first_real(n.orig, None)
                 if a is not None:
                     emit_pre_a(a)
@@ -455,12 +497,22 @@ def generate_section(section, repo_root, em, res):
 
     emit_nodes(section.nodes)
     emit_pre_a(nE)
-    for t in pre_b[nE]:
+    for t, first in pre_b[nE]:
         em.write(t.ws)
         em.write(t.text)
     em.write(section.trailing)
+    gone_items = {id(it) for _, it in removed}
     for path, (a, b, it) in item_lines.items():
-        res.items.append((path, it.kind, a, b))
+        if id(it) not in gone_items:
+            res.items.append((path, it.kind, a, b))
+
+
+def _is_attr_ins(node):
+    """an inserted region that consists of outer attributes only (it belongs to the item that follows it)"""
+    if not isinstance(node, Ins):
+        return False
+    ts = [t for t in node.toks if t.kind not in ('ws', 'mark')]
+    return len(ts) >= 2 and ts[0].text == '#' and ts[1].text == '[' and ts[-1].text == ']'
 
 
 def _collect_anchors(section, anchors, dead):
@@ -556,7 +608,7 @@ def build_unit(unit_path, repo_root, out_path):
                 'erasure_equal': res.equal, 'mirror_tokens': res.e_tokens, 'repo_tokens': res.r_tokens,
                 'edits_transferred': res.edits, 'rewrites': res.rewrites, 'ins_regions': res.ins_regions,
                 'items': res.items, 'not_ingested': res.dropped, 'extra_ranges': res.extra_ranges,
-                'hints_dropped': res.hints_dropped, 'regions': res.regions,
+                'hints_dropped': res.hints_dropped, 'regions': res.regions, 'items_removed': res.items_removed,
             })
         for name, child in node.get('mods', {}).items():
             em.write('pub mod %s {\n' % name)
